@@ -298,12 +298,17 @@ def _check_main(ctx, res) -> None:
     for f in sorted(idx.functions.values(), key=lambda f: f.qualname):
         if not f.unit.modname.startswith("rope.base."):
             continue
-        for t, h, loop, ins, hloop in _rollback_tries(f.node) + _rollback_tries_indexed(f.node):
+        # (a rollback handler whose body was moved into a private helper -- `self._roll_back(done)` -- is read in place; the helpers
+        # themselves are not rollback sites)
+        if not any(isinstance(x, ast.Try) for x in walk_local(f.node)):
+            continue
+        fnode = common.inlined(idx, f)
+        for t, h, loop, ins, hloop in _rollback_tries(fnode) + _rollback_tries_indexed(fnode):
             n_roll += 1
             name = f.qualname.replace("rope.base.change.", "")
             where = f"{f.unit.rel}:{hloop.lineno}"
             if ins is None:
-                okx, why = _indexed_rollback_verdict(f.node, loop, hloop)
+                okx, why = _indexed_rollback_verdict(fnode, loop, hloop)
                 if okx is None:
                     res.undecided("R10.1", name, where, why)
                 else:
@@ -324,7 +329,7 @@ def _check_main(ctx, res) -> None:
                         "oldest-first, so a later change's inverse runs after the earlier one it depends on was already reverted",
                         function=f.qualname, insert=a, iterate=b)
             # R10.2
-            cfg = CFG(f.node)
+            cfg = CFG(fnode)
             hn = cfg.node_of_stmt(h)
             reach = cfg.reachable(hn.id)
             inside = {id(x) for s in h.body for x in [s, *ast.walk(s)]}
@@ -341,8 +346,16 @@ def _check_main(ctx, res) -> None:
             # of the compensation loop only -- never of another element picked from the list of sub-changes (the one that just FAILED
             # is not among the completed ones: it left nothing, or what it left is its own business to take back before it raises)
             tgt = hloop.target.id if isinstance(hloop, ast.For) and isinstance(hloop.target, ast.Name) else None
-            stray = [x for s_ in h.body for x in ast.walk(s_) if isinstance(x, ast.Attribute) and x.attr in ("do", "undo")
-                     and not (isinstance(x.value, ast.Name) and x.value.id in (tgt, "self"))]
+            done_lists = {ins.func.value.id} if ins is not None else set()
+
+            def completed(v) -> bool:
+                """the loop variable of the compensation loop, or an element taken from the done-list (`done.pop()`, `done[-1]`)"""
+                if isinstance(v, ast.Name) and v.id in (tgt, "self"):
+                    return True
+                if isinstance(v, ast.Call) and isinstance(v.func, ast.Attribute) and v.func.attr in ("pop", "popleft") and isinstance(v.func.value, ast.Name) and v.func.value.id in done_lists:
+                    return True
+                return isinstance(v, ast.Subscript) and isinstance(v.value, ast.Name) and v.value.id in done_lists
+            stray = [x for s_ in h.body for x in ast.walk(s_) if isinstance(x, ast.Attribute) and x.attr in ("do", "undo") and not completed(x.value)]
             res.add("R10.14", name, not stray, f"{f.unit.rel}:{(stray[0] if stray else h).lineno}",
                     "the handler takes the inverse of the completed sub-changes only" if not stray else
                     f"the handler also applies `{ast.unparse(stray[0])[:70]}` -- the inverse of a sub-change that is not one of the completed ones: when the failing step is a "
